@@ -43,7 +43,8 @@ PAYLOADS = ["'", "''", "o'x", "' OR 1=1 --", "'; DROP TABLE canary; --", "x' OR 
             "\\\\'", "a\\", "\x00", "a\x00b'", "ʼ", "’", "＇", "′", "%", "_", "%'", "_'", "%%",
             "a%b", "a_b", "'%", "'||'", "' || (SELECT 1) || '", "\"", "\"a\"", "`", "$$", "?",
             ":x", "%s", "{0}", "\n", "\r\n'", "'\n--", "x" * 300, "'" * 50, "''" * 30 + "'",
-            "é'ß", "中'文", "😀'", "", " ", "null", "NULL'"]
+            "é'ß", "中'文", "😀'", "", " ", "null", "NULL'", "a'" * 200, "x" * 260 + "' OR 1=1 --",
+            "'" + "y" * 1000, "%" * 300 + "'"]
 ALPHA = "'\"%_\\-;/* \nx\x00’ʼ()|="
 
 SFUNCS1 = ["tolower", "toupper", "trim", "length"]
